@@ -1,3 +1,4 @@
+import subprocess
 """C03 — shortest-path distance matrices equal true minimum path lengths."""
 import sys
 from common import *  # noqa
@@ -28,6 +29,13 @@ def main():
         ck.corr_break('core extractor (translate/cores.py)', p_)
     ok = ck.lean_gate(['BctVerif.Props.C03'], extra_modules=['BctVerif.Model.Dist'])
     ck.lean_gate([], gen_modules=['BctVerif.Gen.CoresFloyd', 'BctVerif.Gen.CoresDijk', 'BctVerif.Gen.CoresBin', 'BctVerif.Gen.CoresBfs', 'BctVerif.Gen.CoresReach', 'BctVerif.Gen.CoresChar', 'BctVerif.Gen.CoresEff', 'BctVerif.Gen.CoresPinDist'])
+    if ck.tier == 'thorough':
+        # translator self-test (every listed mutant must fail its obligation, every listed harmless edit must pass)
+        st_ = subprocess.run(['/venv/bin/python', os.path.join(VERIF, 'translate', 'cores_selftest.py')], capture_output=True, text=True, timeout=3000,
+                             env=dict(os.environ, BCT_LEAN=LEAN, BCT_REPO=REPO))
+        ck.cov['translator_selftest'] = (st_.stdout.strip().split('\n') or [''])[-1][:200]
+        if st_.returncode != 0:
+            ck.corr_break('core translator self-test (translate/cores_selftest.py)', (st_.stdout + st_.stderr)[-600:])
     if ck.tier == 'thorough' and ok:
         ck.leanchecker(['BctVerif.Props.C03', 'BctVerif.Model.Dist'])
     rp = json.load(open(ck.replay)) if ck.replay else None
@@ -35,7 +43,7 @@ def main():
         c0 = rp['case']['case']
         # a failure may depend on what the worker process ran before (hidden state): replay the case as a two-step sequence
         # (itself, then itself again) unless it already is a sequence / probe
-        cases = [c0 if c0.get('kind') in ('seq', 'probe', 'nav', 'big', 'bad', 'size') else
+        cases = [c0 if c0.get('kind') in ('seq', 'probe', 'nav', 'big', 'bad', 'size', 'reclimit') else
                  {'kind': 'seq', 'A': c0['A'], 'steps': [c0, c0], 'gen': 'replay', **({'only': c0['only']} if c0.get('only') else {})}]
     else:      # no replay, or a `no-failing-input-found` replay (broken theorem / correspondence): run the whole tier
         cases = dc.gen_dist_cases(ck.rs, ck.tier)
